@@ -121,7 +121,11 @@ def obligations(tier, seed):
         for perm in ("rot", "rev"):
             if m < 3 and perm == "rev":
                 continue
-            exp = ["InvalidSequence", "MissingModule", "product", "DuplicateModules"] if (m >= 1) else []
+            exp = ["InvalidSequence"]
+            if m >= 2 or k % 2 == 0:
+                exp.append("DuplicateModules")  # one module alone conflicts only with itself: needs a palindromic overhang
+            if k >= 2 or m <= 2:
+                exp += ["MissingModule", "product"]  # 1-nt overhangs: at most two conflict-free start overhangs exist
             obs.append(Ob("overhang graph m=%d overhang=%dnt order=%s" % (m, k, perm), ob_graph,
                           dict(m=m, k=k, perm=perm), samples=12, cost=6 ** m * k, expect_witness=exp))
             if perm == "rot" and k == 2 and 2 <= m <= tier_pick(tier, 3, 4):
